@@ -97,7 +97,11 @@ func constsFact(name, doc string, body func(c *cx)) Fact {
 		fmt.Fprintf(&b, "namespace Manticore.Gen.%s\n\n", name)
 		j := map[string]any{}
 		for _, d := range c.defs {
-			fmt.Fprintf(&b, "/-- %s -/\ndef %s : %s := %s\n\n", d.doc, d.name, d.typ, d.val)
+			kw := "def"
+			if d.typ == "Nat" || d.typ == "Int" || d.typ == "Bool" {
+				kw = "abbrev" // unfolds at reducible transparency: `exact rfl` against a literal of the model then elaborates
+			}
+			fmt.Fprintf(&b, "/-- %s -/\n%s %s : %s := %s\n\n", d.doc, kw, d.name, d.typ, d.val)
 			j[d.name] = d.js
 		}
 		fmt.Fprintf(&b, "end Manticore.Gen.%s\n", name)
@@ -890,3 +894,51 @@ const (
 )
 
 func bigInt(i int) *big.Int { return big.NewInt(int64(i)) }
+
+// callsWith: every call whose rendered callee satisfies `match`, in source order
+func (n cnode) callsWith(match func(string) bool) []cnode {
+	var out []cnode
+	ast.Inspect(n.n, func(m ast.Node) bool {
+		if x, ok := m.(*ast.CallExpr); ok && match(render(x.Fun)) {
+			out = append(out, n.sub(x, "call of "+render(x.Fun)))
+		}
+		return true
+	})
+	return out
+}
+
+// texts: a Lean `List String`
+func (c *cx) texts(name string, at cnode, ss []string) {
+	var q []string
+	for _, s := range ss {
+		q = append(q, fmt.Sprintf("%q", s))
+	}
+	c.emit(name, "List String", "["+strings.Join(q, ", ")+"]", ss, at)
+}
+
+// putOrder: the second arguments of the `binary.<order>.PutUintN(buf, x)` calls of a function in source order,
+// as "<N><l|b>:<x>" (width, byte order, what is written)
+func (c *cx) putOrder(name string, n cnode) {
+	var out []string
+	for _, k := range n.callsWith(func(s string) bool { return strings.HasPrefix(s, "binary.") && strings.Contains(s, ".PutUint") }) {
+		e := "b"
+		if k.little() {
+			e = "l"
+		}
+		out = append(out, fmt.Sprintf("%d%s:%s", k.width(), e, k.arg(1).text()))
+	}
+	if len(out) == 0 {
+		c.failf("package %s: %s: no binary.*.PutUintN calls", n.p.dir, n.where)
+	}
+	c.texts(name, n, out)
+}
+
+type bigT = big.Int
+
+func ints(v ...int) []*big.Int {
+	var out []*big.Int
+	for _, x := range v {
+		out = append(out, big.NewInt(int64(x)))
+	}
+	return out
+}
